@@ -10,14 +10,20 @@ used in materialised cases: {"parts": [[start, end, strand], ...]}.
 def parts_of(loc):
     if isinstance(loc, dict):
         return [tuple(p) for p in loc["parts"]]
-    return [(int(p.start), int(p.end), p.strand) for p in loc.parts]
+    # a part located on *another* record (GenBank J00194.1:3..4) carries that record's name: (start, end, strand, ref, ref_db)
+    return [(int(p.start), int(p.end), p.strand) + ((p.ref, p.ref_db) if (p.ref or p.ref_db) else ()) for p in loc.parts]
 
 
 def denote(loc, n):
     """a zero-length part (a between-base site such as GenBank 4^5) denotes the *boundary* before position a:
     it is listed as (("gap", a mod n), strand) so that it moves with its flanking nucleotides"""
     out = []
-    for a, b, strand in parts_of(loc):
+    for part in parts_of(loc):
+        a, b, strand = part[:3]
+        if len(part) > 3:
+            # nucleotides of another record: denoted by that record's name and coordinates, whatever happens to this one
+            out.append((("remote",) + tuple(part[3:]) + (a, b), strand))
+            continue
         if a == b and n:
             out.append((("gap", a % n), strand))
             continue
@@ -51,9 +57,9 @@ def same_denotation(d0, d1, n, stranded=True):
 def loc_from_spec(spec):
     from Bio.SeqFeature import FeatureLocation, CompoundLocation
 
-    parts = [FeatureLocation(a, b, strand) for a, b, strand in spec["parts"]]
+    parts = [FeatureLocation(p[0], p[1], p[2], ref=p[3] if len(p) > 3 else None, ref_db=p[4] if len(p) > 4 else None) for p in spec["parts"]]
     return parts[0] if len(parts) == 1 else CompoundLocation(parts)
 
 
 def spec_of(loc):
-    return {"parts": [[a, b, s] for a, b, s in parts_of(loc)]}
+    return {"parts": [list(p) for p in parts_of(loc)]}
